@@ -71,8 +71,6 @@ fn check(ctx: &Ctx) -> i32 {
     ctx.bound("rule_pool", pool.len());
     ctx.bound("requests", reqs.len());
     ctx.bound("resource_stores", 2);
-    // thorough: lists of 4 are restricted to lists whose first rule is one of the 12 'a' spellings
-    // (every tie / exception interaction involves 'a'); lists <= 3 are complete.
     let n = count_arrangements_upto(pool.len() as u64, 3);
     ctx.par_range("lists<=3", n, 16, |i, l| {
         let mut idx = vec![];
@@ -86,20 +84,15 @@ fn check(ctx: &Ctx) -> i32 {
         vh::netsweep::check_list("c13.empty-store", &items, &reqs, l, false, false);
     });
     if k >= 4 {
+        // thorough: every ordered list of exactly 4 rules
         let p = pool.len() as u64;
-        let a_rules: Vec<usize> = (0..pool.len()).filter(|&j| pool[j].contains("=a") && !pool[j].contains("a-alias")).collect();
-        ctx.bound("lists_of_4_first_rule_choices", a_rules.len());
-        let per = (p - 1) * (p - 2) * (p - 3);
-        ctx.par_range("lists=4 starting with an 'a' rule", a_rules.len() as u64 * per, 64, |i, l| {
-            let first = a_rules[(i / per) as usize];
-            let mut rest: Vec<usize> = (0..pool.len()).filter(|&j| j != first).collect();
-            let mut r = i % per;
-            let mut idx = vec![first];
-            for m in 0..3u64 {
-                let radix = p - 1 - m;
-                let d = (r % radix) as usize;
-                r /= radix;
-                idx.push(rest.remove(d));
+        let n3 = count_arrangements_upto(p, 3);
+        let n4 = count_arrangements_upto(p, 4);
+        ctx.par_range("lists=4", n4 - n3, 64, |i, l| {
+            let mut idx = vec![];
+            nth_arrangement(n3 + i, p, &mut idx);
+            if !idx.iter().any(|&j| pool[j].contains("redirect")) {
+                return;
             }
             let items: Vec<(&str, bool)> = idx.iter().map(|&j| (pool[j].as_str(), false)).collect();
             vh::netsweep::check_list("c13", &items, &reqs, l, false, true);
@@ -107,7 +100,7 @@ fn check(ctx: &Ctx) -> i32 {
     }
     ctx.finish(
         "model_checking",
-        "all ordered lists without repetition of <= 3 rules (containing at least one redirect rule) of the 48-rule redirect alphabet, each built into a real engine, once with the standard resource store (a + alias, b, permissioned, fn/javascript, template; 'missing' absent) and once with an empty store, against 7 requests; thorough adds the lists of 4 that start with one of the 'a' spellings; non-trivial = at least one rule matches; every verdict (redirect, matched, important, exception) compared with the reference; ties are set-valued",
+        "all ordered lists without repetition of <= 3 rules (containing at least one redirect rule) of the 48-rule redirect alphabet, each built into a real engine, once with the standard resource store (a + alias, b, permissioned, fn/javascript, template; 'missing' absent) and once with an empty store, against 7 requests; thorough adds every ordered list of 4 rules (standard store); non-trivial = at least one rule matches; every verdict (redirect, matched, important, exception) compared with the reference; ties are set-valued",
         &["an exception naming the same resource with a different priority suffix is Unspecified", "whether a redirect exception also unblocks the request is Unspecified"],
     )
 }
